@@ -37,6 +37,10 @@ type Prog struct {
 	byName  map[string]*FuncInfo
 	allFns  []*FuncInfo
 	litOf   map[*ast.FuncLit]*FuncInfo
+
+	named       []*types.Named
+	implCache   map[*types.Func][]*FuncInfo
+	calleeCache map[*FuncInfo][]*FuncInfo
 }
 
 // FuncInfo is one function with a body (declaration or literal).
